@@ -55,6 +55,17 @@ type config struct {
 	Elems   int    `json:"elems,omitempty"`   // sets: number of elements in the alphabet (0 = 2)
 	Passive int    `json:"passive,omitempty"` // the last Passive replicas never update: they only hold snapshots that are delivered later (delayed / duplicated messages)
 	NoGob   bool   `json:"no_gob,omitempty"`  // no separate gob-merge transitions (the gob checks in every state stay)
+	Skew    bool   `json:"skew,omitempty"`    // lww: replica k's clock is skewOffsets[k] ahead of real time
+}
+
+// clock offsets of the replicas in the skew family
+var skewOffsets = []time.Duration{0, time.Hour, 30 * time.Minute}
+
+// lwwSkew: LWW renderings carry the clock class of every stamp (searches run one after the other)
+var lwwSkew bool
+
+func stampClass(nano int64) int {
+	return int((nano - time.Now().UnixNano() + int64(15*time.Minute)) / int64(30*time.Minute))
 }
 
 func (c config) String() string {
@@ -70,6 +81,9 @@ func (c config) String() string {
 	}
 	if c.NoGob {
 		s += "/nogob"
+	}
+	if c.Skew {
+		s += "/skew"
 	}
 	return s
 }
@@ -335,11 +349,21 @@ func lwwCanonRanked(vals []resources.CRDTValue) string {
 	for _, e := range es {
 		b.WriteString("L add[")
 		for _, x := range e.add {
-			fmt.Fprintf(&b, "%s@%d ", x.Elem, rank[x.Elem][x.Nano])
+			if lwwSkew {
+				// which clock the stamp comes from decides how it compares with every future stamp
+				fmt.Fprintf(&b, "%s@%d/c%d ", x.Elem, rank[x.Elem][x.Nano], stampClass(x.Nano))
+			} else {
+				fmt.Fprintf(&b, "%s@%d ", x.Elem, rank[x.Elem][x.Nano])
+			}
 		}
 		b.WriteString("] rem[")
 		for _, x := range e.rem {
-			fmt.Fprintf(&b, "%s@%d ", x.Elem, rank[x.Elem][x.Nano])
+			if lwwSkew {
+				// which clock the stamp comes from decides how it compares with every future stamp
+				fmt.Fprintf(&b, "%s@%d/c%d ", x.Elem, rank[x.Elem][x.Nano], stampClass(x.Nano))
+			} else {
+				fmt.Fprintf(&b, "%s@%d ", x.Elem, rank[x.Elem][x.Nano])
+			}
 		}
 		b.WriteString("];")
 	}
@@ -818,6 +842,12 @@ func (s *searcher) nextStampVals(vals []resources.CRDTValue) {
 	if s.cfg.Type != "lww" {
 		return
 	}
+	if s.cfg.Skew {
+		// stamps of other clocks lie in the future: only make sure that real time has moved on
+		for t0 := time.Now(); time.Since(t0) < 2*time.Microsecond; {
+		}
+		return
+	}
 	var max int64
 	for _, r := range vals {
 		a, rm := resources.VerifLWWEntries(r)
@@ -845,9 +875,17 @@ func (s *searcher) write(n *node, r, op int) *node {
 	s.nextStampVals(n.reps)
 	c := &node{reps: append([]resources.CRDTValue{}, n.reps...), know: append([]uint64{}, n.know...),
 		parent: n, tr: trans{T: "w", R: r, Op: op}, depth: n.depth + 1, taint: n.taint}
-	nv, ok := safeWrite(n.reps[r], s.u.ids[r], s.u.opValue(s.ops[op]))
+	base := n.reps[r]
+	if s.cfg.Skew {
+		// a replica whose clock is off ahead sees every stamp off earlier relative to its own time.Now()
+		base = resources.VerifLWWShift(base, -skewOffsets[r])
+	}
+	nv, ok := safeWrite(base, s.u.ids[r], s.u.opValue(s.ops[op]))
 	if !ok {
 		return nil
+	}
+	if s.cfg.Skew {
+		nv = resources.VerifLWWShift(nv, skewOffsets[r])
 	}
 	c.reps[r] = nv
 	n.inheritCanon(c, r)
@@ -921,6 +959,17 @@ func (s *searcher) checkNode(n *node, laws bool, ws []*node) {
 			}
 			s.col.add(key, &candidate{s: s, n: n, law: "read-semantics", observable: true,
 				what: fmt.Sprintf("gcounter replica r%d reads %v but the increments it has received add up to %d (state %s); the only acceptable answers are that sum or, when it does not fit 32 bits, a loud failure", i+1, got, sum, show(typ, n.reps[i]))})
+			continue
+		}
+		if s.cfg.Skew {
+			// with skewed clocks "latest" is decided by the stamps; what must still hold is that replicas
+			// which have received the same updates read the same value, whatever the order and duplication
+			for j := 0; j < i; j++ {
+				if n.know[j] == n.know[i] && !rd(n.reps[j]).Equal(got) {
+					s.col.add("lww/same-updates-different-read", &candidate{s: s, n: n, law: "same-updates-same-read", observable: true,
+						what: fmt.Sprintf("lww replicas r%d and r%d have received the same updates but read %v and %v (states %s and %s)", j+1, i+1, rd(n.reps[j]), got, show(typ, n.reps[j]), show(typ, n.reps[i]))})
+				}
+			}
 			continue
 		}
 		want := modelRead(typ, s.u, n.ev, n.know[i])
@@ -1171,6 +1220,8 @@ func parallel(n, workers int, f func(i int)) {
 
 func (s *searcher) run(workers int, deadline time.Time) *searchResult {
 	t0 := time.Now()
+	lwwSkew = s.cfg.Skew
+	defer func() { lwwSkew = false }()
 	res := &searchResult{Cfg: s.cfg.String(), Checks: map[string]int{}, ShareS: time.Until(deadline).Seconds()}
 	root := s.root()
 	seen := map[string]bool{root.key(s.cfg.Type): true}
@@ -1336,6 +1387,8 @@ func plan(thorough bool) []config {
 			{Type: "gcounter", Universe: 0, Replicas: 3, Depth: 5},
 			{Type: "aworset", Universe: 1, Replicas: 2, Depth: 5},
 			{Type: "lww", Universe: 1, Replicas: 2, Depth: 5},
+			// clocks that disagree: replica k stamps its updates skewOffsets[k] ahead of real time
+			{Type: "lww", Universe: 0, Replicas: 3, Depth: 5, Elems: 1, Skew: true, NoGob: true},
 			// the time order of updates multiplies the LWW state space: 3 replicas at depth 5 and beyond run in the thorough tier
 			{Type: "lww", Universe: 0, Replicas: 3, Depth: 4},
 			// two elements, three updating replicas (depth 5 and 6 run in the thorough tier)
@@ -1357,6 +1410,8 @@ func plan(thorough bool) []config {
 		{Type: "lww", Universe: 1, Replicas: 3, Depth: 5},
 		{Type: "lww", Universe: 2, Replicas: 3, Depth: 5},
 		{Type: "lww", Universe: 1, Replicas: 2, Depth: 6},
+		{Type: "lww", Universe: 0, Replicas: 3, Depth: 7, Elems: 1, Skew: true, NoGob: true},
+		{Type: "lww", Universe: 0, Replicas: 3, Depth: 5, Skew: true},
 		{Type: "lww", Universe: 0, Replicas: 3, Depth: 8, Elems: 1, Passive: 1, NoGob: true},
 		{Type: "aworset", Universe: 1, Replicas: 2, Depth: 7},
 		{Type: "aworset", Universe: 0, Replicas: 3, Depth: 6},
@@ -1375,6 +1430,7 @@ func TestCheck(t *testing.T) {
 				t.Fatal(err)
 			}
 			s := &searcher{cfg: r.Cfg, u: mkUniverse(r.Cfg.Universe), ops: opsFor(r.Cfg), col: col, lawSeen: map[string]bool{}}
+			lwwSkew = r.Cfg.Skew
 			// re-execute the path from Init and run every check on every state along it
 			for k := 0; k <= len(r.Path); k++ {
 				n, err := s.execPath(r.Path[:k])
